@@ -425,6 +425,10 @@ pub fn run(script: &Script) -> History {
         now_calls: 0,
         tainted: false,
     };
+    if is_tainted() {
+        // a reader thread of an earlier run is still stuck in this process
+        return empty(Outcome::Wedge("process tainted by an earlier hang; run not executed".into()));
+    }
     let args = match Args::try_parse_from(&argv) {
         Ok(a) => a,
         Err(e) => return empty(Outcome::ArgsRejected(e.kind().to_string())),
@@ -510,7 +514,10 @@ pub fn run(script: &Script) -> History {
     };
     log::set_max_level(log::LevelFilter::Off);
     if tainted {
-        // the reader thread is still alive and owns the world; take what we have
+        // the reader thread is still alive (and may hold the table lock for ever): abandon the world
+        // without running its destructor, which would try to take a last snapshot
+        std::mem::forget(verif_seam::install(None));
+        // take what we have
         let tr = trace.lock().unwrap_or_else(|e| e.into_inner());
         return History {
             steps: tr.steps.clone(),
